@@ -14,7 +14,7 @@ CLAIMED = {
    technique='MIR guarded-effect dominance + failing-edge obligations + log code/kind table agreement',
    text=('Decides the verdict plumbing of hard-binding validation on all paths: success codes only on the Ok edge of the matching verifier, '
          'every verifier Err edge reaches a Failure log or Err, leaf verifiers return Ok only after the hash comparison, verify_store passes '
-         'verify_hash_binding on the binding claim, box-hash verification exhausts the handler box list, log kinds agree with log_kind(code). '
+         'verify_hash_binding on the binding claim, box-hash verification exhausts the handler box list, log kinds agree with log_kind(code), the JPEG scan-extent predicate accepts 0x00 and every RSTm (enumerated over the byte domain), a signed exclusion is replaced by the observed store range only under an update manifest. '
          'Does NOT decide which bytes the hashes cover.'),
    note='Undecided: exclusion/offset arithmetic, box maps, BMFF path exclusions (runtime values). Assumption A1: labels returned by get_hash_binding_manifest name claims present in the store. Trusted base: ' + TRUSTED,
    design='5/C01'),
@@ -175,7 +175,7 @@ CLAIMED = {
  'C11': dict(
    technique='def-use routing rule on the reader entry points + full path enumeration of format_from_stream + compile-time table agreement between sniffer constants and handler tables',
    text=('Decides that the stream/file reader entry points hand the store loader the result of format_from_stream(hint, stream), that format_from_stream returns the hint only when detection failed or containers agree, '
-         'and that every container id the sniffer can return is the first entry of a handler SUPPORTED_TYPES table (static or promoted initialiser values).'),
+         'that every container id the sniffer can return is the first entry of a handler SUPPORTED_TYPES table (static or promoted initialiser values), and that the published signatures of 14 container kinds (independent table) are among the byte strings the sniffer compares the header with.'),
    note='Undecided: equality of whole reports; entry points that take a hint without sniffing (manifest-data, fragment, ingredient variants) are outside the clause and listed in the evidence. Trusted base: ' + TRUSTED,
    design='5/C11'),
  'C13': dict(
